@@ -68,7 +68,7 @@ CHECKS = {
    level="fault_enumeration",
    text="Leak oracle (per-thread counting allocator): for every failing input of the fault enumeration (every truncation point, bit flips, length/count/type corruptions) of every generated type, binary+compact, sync+async: live bytes must not grow between repeated decode+drop cycles (input buffer included).",
    design="6/C19",
-   note="Thrift generated types; protobuf types are added with the protobuf pipeline. Growth between repetitions (after a warm-up) is the observable; LSan/valgrind second opinion in the thorough tier.",
+   note="Thrift generated types (binary+compact, sync+async) and protobuf generated messages. Growth between repetitions (after a warm-up) is the observable; LSan/valgrind second opinion in the thorough tier.",
    technique="runtime monitoring: counting allocator over enumerated failing decodes, supervised workers"),
  "C20": dict(
    level="exploration",
@@ -92,14 +92,38 @@ CHECKS = {
    level="exploration",
    text="Builder-as-child-process monitor over programs x configurations: hostile-named G_thrift documents (+ fixed directed documents) built in 16 configurations; observations = exit status/stderr of pilota-build and rustc diagnostics (cargo check of a crate that include!s every output as a module against the working tree's pilota).",
    design="6/C14",
-   note="Thrift documents only so far (G_proto joins with the protobuf pipeline). Uniqueness of names only in Thrift's own terms. Six prelude names and recursive unions are covered by directed documents (recorded findings), not by the random profile.",
+   note="Thrift documents (hostile names) and G_proto documents (plain names). Uniqueness of names only in Thrift's own terms. Six prelude names and recursive unions are covered by directed documents (recorded findings), not by the random profile.",
    technique="runtime monitoring: child-process status + compiler diagnostics over generated programs"),
  "C17": dict(
    level="exploration",
    text="Output-equality monitor over schedules: each corpus built R times in fresh processes (fresh hash seeds) x RAYON_NUM_THREADS in {1..16} x jitter hook x concurrent builders, in single/split/workspace mode; file set and contents must be identical; the hook's order log reports how many distinct task completion orders were actually seen (floor >= 5).",
    design="6/C17",
-   note="Schedules are sampled. Thrift corpora only so far (protobuf joins with the protobuf pipeline). Needs the cfg(pilota_verif) hook for jitter/order observation; without it the equality oracle still runs but the order floor is unmet (inconclusive).",
+   note="Schedules are sampled. Thrift and protobuf corpora. Needs the cfg(pilota_verif) hook for jitter/order observation; without it the equality oracle still runs but the order floor is unmet (inconclusive).",
    technique="runtime monitoring: process repetition under injected jitter, file-content comparison, observed-order counting"),
+ "C05": dict(
+   level="exploration",
+   text="Bytes-only oracle over .proto programs x inputs: G_proto corpora (proto2+proto3, a fixed all-kinds message, a recursive message) compiled by pilota-build {single, split, + pilota built with pb-encode-default-value}; reference-encode -> Message::decode -> encode -> reference-decode equality, encoded_len == bytes, typed round trip, length-delimited framing consumes exactly its frame.",
+   design="6/C05",
+   note="The runtime field codecs (pilota::prost::encoding::*) are exercised through the generated messages (every scalar kind in singular/repeated/packed/map/oneof position via the fixed all-kinds message), not through hand-written Message impls; groups are only covered as unknown fields. NaN and -0.0 are not generated.",
+   technique="runtime monitoring: differential oracle vs independent schema-driven reference codec over generated programs"),
+ "C06": dict(
+   level="exploration",
+   text="Conformance both ways against the independent reference codec: every conforming re-ordering / packing / map-entry form / explicit default of a value must decode to the same value, pilota's bytes must reference-decode to it, and a Debug probe on the typed message checks the number the program sees (catches codecs wrong in both directions, e.g. plain varint for sint).",
+   design="6/C06",
+   note="Trusted: reference codec (encoding-guide vectors), G_proto. The Debug probe covers singular integral fields at the top level of each message.",
+   technique="runtime monitoring: differential oracle + typed-value probe over generated programs"),
+ "C10": dict(
+   level="fault_enumeration",
+   text="Fault enumeration on generated message decoders (every truncation, bit flips, every top-level length prefix overwritten with boundary values, unstructured bytes) under panic/allocator monitors in supervised workers; claimed-length metamorphic check (peak allocation independent of the claimed length); nesting depth 1..300 of embedded messages (singular/repeated/map value) and unknown groups against the documented limit of 100 on a 2 MiB stack.",
+   design="6/C10",
+   note="Generated messages and the runtime codecs they call; the well-known wrapper impls of types.rs and decode_length_delimiter are not driven separately yet.",
+   technique="runtime monitoring: fault enumeration under allocator/panic monitors, supervised processes"),
+ "C18": dict(
+   level="exploration",
+   text="Merge-semantics oracle: decode(enc(a)++enc(b)) == decode(enc(a)).merge(enc(b)) and both equal an independent STREAM decoder implementing last-wins / append / map insert-replace / oneof replacement / message merge; random record interleavings; unknown fields of every wire type (nested groups) at every nesting level must not change the message.",
+   design="6/C18",
+   note="Trusted: the reference stream decoder. Interleavings are sampled.",
+   technique="runtime monitoring: reference stream decoder as oracle over generated programs"),
 }
 
 NOT_YET = "check not built yet (work in progress; see DESIGN.md section 6 for the planned monitor)"
